@@ -171,6 +171,13 @@ def gen_plan(rng, run_index, tier, opts):
                 st_ = {"op": "hist", "call": "set_attr", "idx": rng.randrange(12), "attr": rng.choice(SET_ATTRS)}
                 if targeted and rng.random() < 0.6:
                     st_.update(rng.choice(targeted))
+                if rng.random() < 0.25:
+                    # ... or completes a node (commodity / unit set later) - often after the object was written once.  (Not
+                    # renamed: a Portfolio indexes its nodes by name when it is constructed, so renaming a node of a live
+                    # portfolio leaves it inconsistent - the reloaded one is rebuilt and differs, which is not the JSON's fault)
+                    st_ = {"op": "hist", "call": "node_attr", "idx": rng.randrange(12), "what": rng.choice(["commodity", "commodity", "unit"])}
+                    if rng.random() < 0.6:
+                        steps.append({"op": "hist", "call": "to_json"})
                 steps.append(st_)
         path = rng.choice(["string", "file", "file"])
         st = {"op": "save", "path": path}
@@ -213,7 +220,8 @@ def gen_plan(rng, run_index, tier, opts):
             steps.append({"op": "save", "path": "file"})
             steps.append({"op": "load", "path": "file"})
     return {"world": world, "target": target, "probes": [[g, prices[g]] for g in probes], "home": g0,
-            "own_grid": bool(own_grid and target[0] == "P"), "steps": steps, "cfg": {"mip": mip}}
+            "own_grid": bool(own_grid and target[0] == "P"), "steps": steps, "cfg": {"mip": mip},
+            "fname": rng.choice(["obj.json", "obj.json", "obj.json", "portfolio", "book.v2", "P.JSON", "dir/obj.json"])}
 
 
 # --------------------------------------------------------------------------- executor
@@ -241,6 +249,7 @@ class Run:
         self.live = self.B.obj(plan["target"])
         self.live_grid = plan["home"] if plan.get("own_grid") else None   # grid id the live portfolio holds
         self.pgrid = {g: p for g, p in plan["probes"]}
+        self.fname = plan.get("fname", "obj.json")      # the name the user saves under and loads from
         self.text = None           # last string form
         self.text_snap = None
         self.acked_snap = None     # reference for the last acknowledged file save
@@ -413,6 +422,20 @@ class Run:
                 elif st["call"] == "set_timegrid":
                     self.live_grid = st["grid"]
                     self.live.set_timegrid(self.B.grid(st["grid"]))
+                elif st["call"] == "node_attr":
+                    nodes_ = []
+                    for a_ in flat_assets(self.live):
+                        for n_ in (a_.nodes if isinstance(getattr(a_, "nodes", None), (list, tuple)) else [getattr(a_, "nodes", None)]):
+                            if n_ is not None and hasattr(n_, "commodity") and not any(n_ is q for q in nodes_):
+                                nodes_.append(n_)
+                    if nodes_:
+                        n_ = nodes_[st["idx"] % len(nodes_)]
+                        if st["what"] == "commodity":
+                            n_.commodity = "heat" if n_.commodity != "heat" else "steam"
+                        else:
+                            n_.unit = eao.assets.Unit(volume="MWh(th)", flow="MW(th)") if getattr(n_.unit, "volume", None) != "MWh(th)" else eao.assets.Unit()
+                        out = "node:%s" % st["what"]
+                        self.probes["node_changed_before_save"] = self.probes.get("node_changed_before_save", 0) + 1
                 elif st["call"] == "set_attr":
                     d_ = apply_set_attr(self.live, st["idx"], st["attr"], st.get("cls"))
                     out = "set:%s" % d_
@@ -457,7 +480,7 @@ class Run:
             raised = None
             with self.disk.mounted(faults) as d:
                 try:
-                    eao.serialization.to_json(self.live, "obj.json")
+                    eao.serialization.to_json(self.live, self.fname)
                 except seams.SimCrash:
                     crashed = True
                 except OSError as e:
@@ -479,12 +502,12 @@ class Run:
                     self.restart(i)
                     self.probes["crash_then_restart_load"] += 1
             else:
-                if "obj.json" not in self.disk.acked:
+                if self.fname not in self.disk.acked:
                     # injected fault did not fire (offset beyond the end): normal acknowledged save
                     pass
                 self.acked_snap = snap
                 self.pending_snap = None
-                self.events.append((i, "save:file", canon.digest_canon(self.disk.files.get("obj.json", ""))))
+                self.events.append((i, "save:file", canon.digest_canon(self.disk.files.get(self.fname, ""))))
         elif op == "restart":
             self.restart(i)
         elif op == "load":
@@ -534,8 +557,8 @@ class Run:
                 self.stats["generations"] += 1
                 self.cover(st, "acked")
             return
-        if "obj.json" not in self.disk.files:
-            return
+        if self.fname not in self.disk.files and self.acked_snap is None and self.pending_snap is None:
+            return      # nothing was saved under that name yet
         refs = []
         acked = self.pending_snap is None
         if self.pending_snap is not None:
@@ -548,7 +571,7 @@ class Run:
         if f == "eio_read":
             faults = [("read", "eio_read")]
         elif f == "short_read":
-            k = int(round(st.get("frac", 0.5) * len(self.disk.files["obj.json"])))
+            k = int(round(st.get("frac", 0.5) * len(self.disk.files.get(self.fname, ""))))
             faults = [("read", "short_read@%d" % k)]
         exc = None
         loaded = None
@@ -558,20 +581,20 @@ class Run:
                 rfj_g = st.get("rfj_grid")
                 if path == "run_from_json" and refs and (rfj_g or getattr(refs[0], "_verif_grid_id", None) is not None):
                     rg = rfj_g or refs[0]._verif_grid_id
-                    loaded = eao.serialization.load_from_json(file_name="obj.json")
+                    loaded = eao.serialization.load_from_json(file_name=self.fname)
                     try:
                         kwr = {"timegrid": self.B.grid(rfj_g)} if rfj_g else {}
-                        out = eao.serialization.run_from_json(file_name_in="obj.json", prices=self.B.prices(self.pgrid[rg]), **kwr)
+                        out = eao.serialization.run_from_json(file_name_in=self.fname, prices=self.B.prices(self.pgrid[rg]), **kwr)
                     except Exception as e2:
                         out = ("raise", type(e2).__name__)
                     ran = rg
                 elif path == "file_text":
-                    with d.open("obj.json", "r", encoding="utf-8") as fh:
+                    with d.open(self.fname, "r", encoding="utf-8") as fh:
                         txt = fh.read()
                     loaded = eao.serialization.load_from_json(txt)
                     self.probes["file_loaded_as_text"] = self.probes.get("file_loaded_as_text", 0) + 1
                 else:
-                    loaded = eao.serialization.load_from_json(file_name="obj.json")
+                    loaded = eao.serialization.load_from_json(file_name=self.fname)
             except Exception as e:
                 exc = e
         for kk in list(d.fired):
